@@ -623,7 +623,7 @@ class PixelAlgorithms(AccessorBase):
             # I don't know how to tell xarray's map_blocks about
             # changing dtype and losing first dimension, so use
             # dask version directly
-            if is_dask_collection(xx):
+            if is_dask_collection(xx.data):
                 # merge all time slices if not already
                 if len(xx.chunks[0]) != 1:
                     xx = xx.chunk({"time": -1})
@@ -834,7 +834,7 @@ class ZonalStatistics(AccessorBase):
         # convert str datatype to type
         dtype = np.dtype(dtype).type
 
-        if is_dask_collection(xx):
+        if is_dask_collection(xx.data):
             dask_name = name
             if isinstance(dask_name, str):
                 dask_name = f"{name}-{tokenize(xx.data, zones.data, dtype)}"
